@@ -422,11 +422,20 @@ func checkC15(c *core.Ctx, r *core.Report) {
 				break
 			}
 			ifi, ok := core.LastIf(idom)
-			if !ok || idom.Succs[0] != b || len(b.Preds) != 1 {
+			if !ok || len(b.Preds) != 1 {
 				continue
 			}
-			if bo, ok := ifi.Cond.(*ssa.BinOp); ok && (bo.Op == token.LSS || bo.Op == token.LEQ) {
-				if k, ok := core.ConstIntValue(bo.Y); ok && k <= maxRec {
+			// either form of the gate: `if n < MAX { parse }` (true edge)
+			// or `if n >= MAX { reject; break }` followed by the parse
+			// (false edge)
+			onTrue := idom.Succs[0] == b
+			onFalse := idom.Succs[1] == b
+			if bo, ok := ifi.Cond.(*ssa.BinOp); ok {
+				k, isK := core.ConstIntValue(bo.Y)
+				switch {
+				case onTrue && (bo.Op == token.LSS || bo.Op == token.LEQ) && isK && k <= maxRec:
+					gated = true
+				case onFalse && (bo.Op == token.GEQ || (bo.Op == token.GTR && k < maxRec)) && isK && k <= maxRec:
 					gated = true
 				}
 			}
